@@ -143,7 +143,9 @@ static void lab_key_text(char *dst, int k) { dst[0] = k == LK_1 ? '1' : '2'; dst
 #else
 static void lab_key_text(char *dst, int k) { dst[0] = k == LK_1 ? '1' : k == LK_2 ? '2' : 'x'; dst[1] = '\0'; }
 #endif
-static void ab_text(char *dst, int t) { dst[0] = t == 0 ? 'A' : 'B'; dst[1] = '\0'; }
+/* texts: 0 "A", 1 "B", 2 "AB" (label texts only: a proper extension of text 0, so that a comparison of
+ * a prefix, of the lengths or of the first character alone is not the comparison of the strings) */
+static void ab_text(char *dst, int t) { dst[0] = t == 1 ? 'B' : 'A'; dst[1] = t == 2 ? 'B' : '\0'; dst[2] = '\0'; }
 
 /* string storage of the ghost documents */
 struct slot_str { char key[8], title[8], ct[8], labkey[2][8], labtext[2][8]; };
@@ -264,6 +266,7 @@ slots_agree(const struct slot_in *a, const struct slot_in *b, int *why)
 static int
 text_is(const char *s, int ab)
 {
+	if (ab == 2) return s[0] == 'A' && s[1] == 'B' && s[2] == '\0';
 	return s[0] == (ab == 0 ? 'A' : 'B') && s[1] == '\0';
 }
 
@@ -280,7 +283,7 @@ harness(void)
 			V_ASSUME(si->has_ct <= 1 && si->ct_is_str <= 1 && si->ct < CT_MAX);
 			V_ASSUME(si->has_labels <= 1 && si->labels_is_obj <= 1);
 			for (int l = 0; l < NLAB; l++)
-				V_ASSUME(si->lab[l].present <= 1 && si->lab[l].key < LK_MAX && si->lab[l].is_str <= 1 && si->lab[l].text <= 1);
+				V_ASSUME(si->lab[l].present <= 1 && si->lab[l].key < LK_MAX && si->lab[l].is_str <= 1 && si->lab[l].text <= 2);
 #if NLAB > 1
 			V_ASSUME(si->lab[0].key != si->lab[1].key);   /* member names of a JSON object are unique */
 #endif
